@@ -480,12 +480,14 @@ def check(run):
     from elftools.elf.sections import NoteSection
     from elftools.elf.segments import NoteSegment
     run.rule = ('G cases = finished extents of the Notes writer (size sweep over namesz/descsz residues incl. header-only notes and '
-                'trailing padding, owner x type x e_type sweep, decoded descriptors incl. property lists under several e_types, stabs), '
+                'trailing padding, owner x type x e_type sweep, decoded descriptors incl. property lists under several e_types, '
+                'declared alignment - p_align x sh_addralign in {0, 1, 4, 8, 16} - x sizes that tell 4- from 8-byte padding apart, stabs), '
                 'each exposed as SHT_NOTE '
                 'section and PT_NOTE segment of one ELF image and consumed in 8 iterator patterns; distinct by file bytes; '
                 'non-trivial = at least one note / stab record.  T cases = note sections and segments of the corpus files; '
                 'non-trivial = all of them')
-    run.assumptions += ['note name and descriptor are padded to 4 bytes in both ELF classes (property text; Linux/GNU practice)',
+    run.assumptions += ['note name and descriptor are padded to 4 bytes in both ELF classes (property text; Linux/GNU practice), '
+                        'whatever alignment p_align / sh_addralign declare',
                         'type-code names are asserted only where the owner that defines the code is the note\'s owner '
                         '("GNU" outside ET_CORE, "CORE" in ET_CORE); otherwise the raw integer or any registered name of the code passes',
                         'names the vendored registry and the specification do not define are not asserted (vocabulary gating)',
@@ -497,9 +499,11 @@ def check(run):
                         'in ET_CORE files types 3 and NT_FILE are generated with owner "CORE" and a well-formed descriptor only',
                         'corpus extents whose notes overrun the extent (dwarf_phantombytes.elf marks DWARF sections SHT_NOTE) '
                         'are not well-formed inputs and are not judged']
-    cfgs = ['Notes_quick'] if run.tier == 'quick' else ['Notes_thorough', 'Notes_thorough3', 'Notes_thorough_props', 'Notes_thorough_props2']
+    # (Notes_quick_all = Notes_quick.cfg + mode "align")
+    cfgs = ['Notes_quick_all'] if run.tier == 'quick' else ['Notes_thorough', 'Notes_thorough3', 'Notes_thorough_props', 'Notes_thorough_props2']
     seen = set()
     ctx = None
+    nalign = {'extents': 0, 'where 8-byte padding would walk differently': 0}
     provers = _apalache_start(run)
     for cfg in cfgs:
         res = run.tlc('Notes', cfg)
@@ -523,6 +527,9 @@ def check(run):
                 _replay_stabs(run, case, ELFFile)
             else:
                 run.count(key, nontrivial=bool(case['notes']))
+                if case['mode'] == 'align':
+                    nalign['extents'] += 1
+                    nalign['where 8-byte padding would walk differently'] += 1 if case['alt8'] else 0
                 _replay_notes(run, ctx, case, ELFFile, NoteSection, NoteSegment, tables['tables'])
             if len(run.samples) < 3 and run.evaluations % 2500 == 77:
                 run.samples.append({'mode': case['mode'], 'tag': case['tag'], 'cls': case['cls'], 'le': case['le'],
@@ -530,6 +537,7 @@ def check(run):
                                     'expect': [{k: v for k, v in n.items() if k in ('off', 'size', 'namesz', 'descsz', 'type', 'name', 'dk')}
                                                for n in case.get('notes', [])] or case.get('stabs')})
     run.validated = run.evaluations
+    run.extra['align_cases'] = nalign
     # termination in its liveness form (fair walker steps lead to "done") on a small instance; nothing is emitted
     run.tlc('Notes', 'Notes_live', emit=False)
     _trace_check(run)
@@ -537,6 +545,6 @@ def check(run):
     run.extra['exhaustive'] = True
     run.extra['explanation'] = ('exhaustive within the bounds of the configuration(s) %s (see the cfg comment blocks); '
                                 'TLC checks EveryNoteOnce, ExtentConsumed, SectionViewEqualsSegmentView, NotesTile, DescRoundTrip, OnlyDefiningOwnerDecodes, '
-                                'StabsExact, ImageCarriesExtent, WalkerProgress and Termination on the specification itself' % ', '.join(cfgs))
+                                'StabsExact, ImageCarriesExtent, AlignOnlyInHeaders, WalkerProgress and Termination on the specification itself' % ', '.join(cfgs))
     if not run.samples:
         run.samples.append({'note': 'no sample'})
